@@ -119,7 +119,7 @@ def gen_entry_ops(rng, rows, quick):
     sd = wc.seeds()
     special = entry_seeds(rng)
     upto = 40 if quick else 96
-    nrand = 6 if quick else 400
+    nrand = 6 if quick else 60
     ops = []
 
     def fills(ln):
@@ -150,7 +150,7 @@ def gen_entry_ops(rng, rows, quick):
                 for _ in range(rng.choice([1, 1, 2, 3])):
                     m = wc.mutate(rng, m)
                 out.append(f"entry {k} {wc.hexs(m)}{args}")
-            if len(b) <= 128 and (j < 2 or not quick):   # every prefix of a structured input: truncation at every byte
+            if len(b) <= 128 and j < (2 if quick else 6):   # every prefix of a structured input: truncation at every byte
                 out += [f"entry {k} {wc.hexs(b[:i])}{args}" for i in range(len(b))]
         for _ in range(nrand):
             ln = rng.choice([41, 48, 64, 100, 255, 256, 1500, rng.randint(0, 300)])
